@@ -160,6 +160,15 @@ def d1_d2_ragged(ctx, committer, a_regen, r_regen):
         f = ctx.repo.func(spec)
         regens = [n for n, cal in ctx.E.callees(f) if cal is r_regen and isinstance(n, ast.Call)]
         if not regens:
+            from .C05 import delegates_to
+            others = [ctx.repo.func(s_) for s_ in RAGGED_FUNCS if s_ != spec]
+            dg = delegates_to(ctx, f, others, lambda cal: cal is committer or cal.qualname in ('truncate_array', 'create_array') or
+                              (cal.name == '_append' and cal.cls is not None))
+            if dg is not None:
+                ctx.ok('R-POST', 'D1', f, None, 'ragged-regenerates',
+                       f'{f.qualname} changes no state itself and hands the work to {dg.qualname} on every normal path (decided there)')
+                continue
+        if not regens:
             ctx.bad('R-POST', 'D1', f, None, 'ragged-regenerates', f'{f.qualname} regenerates the top-level README',
                     detail='no call of RaggedArray._update_readmetxt')
             continue
